@@ -40,6 +40,16 @@ def attach_monitors(ctx):
     attach_world(ctx.world)
 
 
+def attach_passive():
+    """Under the repository's tests: world monitor with automatic registration of every histogram created;
+    bystander changes are reported only between objects related by derivation."""
+    from ..world import World, attach_world, register_all_new
+
+    w = World(passive=True, max_population=10)
+    attach_world(w)
+    register_all_new(w)
+
+
 def run(ctx):
     attach_monitors(ctx)
     ctx.run_cases(ctx.scale(350, 3000), one_history)
